@@ -24,6 +24,7 @@ class Ctx:
         self.nworkers = nworkers
         self.scratch = Scratch(f"{prop}-w{worker}")
         self.cache = {}
+        self.known = set()
 
     def close(self):
         for obj in self.cache.values():
@@ -162,6 +163,7 @@ def main(argv=None):
     try:
         mod = load_module(args.prop)
         known = known_signatures(args.prop)
+        ctx.known = set(known)
         for i, sub in enumerate(mod.subchecks(args.tier)):
             if args.only and sub.name != args.only:
                 continue
